@@ -259,6 +259,23 @@ func textForms(bad func(string)) {
 	}
 }
 
+// programs: the compilation of a fixed set of policies for each syscall table, as text. It does not depend on the machine the
+// process runs on (no lookup of the running architecture), so two builds of this command for different CPU targets must
+// print the same thing (C19: "a policy compiles to the same program wherever it is compiled for a given syscall table").
+func programs() map[string]string {
+	out := map[string]string{}
+	for k := 0; k < 4; k++ {
+		for _, a := range []*arch.Info{arch.X86_64, arch.I386, arch.ARM, arch.AARCH64} {
+			p := basePolicy(k)
+			seccomp.VerifSetArch(&p, a)
+			b, err := compileBytes(&p)
+			h := sha256.Sum256(b)
+			out[fmt.Sprintf("policy %d for %s", k, a.Name)] = fmt.Sprintf("%x err=%v", h[:8], err)
+		}
+	}
+	return out
+}
+
 func digest() string {
 	h := sha256.New()
 	for k := 0; k < 4; k++ {
@@ -374,12 +391,15 @@ func conc(share string, n, rounds int) {
 }
 
 func main() {
-	mode := flag.String("mode", "seq", "seq | conc | digest")
+	mode := flag.String("mode", "seq", "seq | conc | digest | programs")
 	n := flag.Int("n", 16, "goroutines")
 	rounds := flag.Int("rounds", 30, "rounds per goroutine")
 	flag.Parse()
 	rep.Mode = *mode
 	switch *mode {
+	case "programs":
+		json.NewEncoder(os.Stdout).Encode(programs())
+		return
 	case "seq":
 		var hists [][]string
 		if err := json.NewDecoder(os.Stdin).Decode(&hists); err != nil {
